@@ -33,7 +33,6 @@ if not want:
         status = "silent" if rc == 0 and "VIOLATION" not in out else "ALARM"
         # behaviour-preserving patches that still raise an alarm (recorded honestly in DESIGN 10c; an alarm from any other patch fails this script)
         known = {
-            "r3a-23-split-processjournalrecords-two-phases.diff": "KNOWN FALSE ALARM: C03/C41 path rules are intraprocedural; scan and truncate now live in two phase functions",
             "r3b-23-split-phases-doFastForward.diff": "KNOWN FALSE ALARM: C20 ff-ancestry / C35 ff-ancestor-check are intraprocedural; ancestry test and update now live in two phase functions",
         }
         note = known.get(os.path.basename(p), "")
